@@ -133,19 +133,24 @@ func verif_harness_C04_attack() {
 // is 1 (initial workers 0..2, so the clamp matters), two hits are released, and
 // at most one may be in flight at any instant.
 //
-//verif:harness engine=gobmc param.N=2..2 unwind=16 replay=none bmctimeout=1500 queries=cut,bad,growth:_attack_:busy:n_max_workers_0 thorough.bmctimeout=6000
+//verif:harness engine=gobmc param.N=2..2 param.workers=0..2 unwind=16 replay=none bmctimeout=1500 queries=cut,bad,growth:_attack_:busy:n_max_workers_0 thorough.bmctimeout=6000
 func verif_harness_C03_cap_one() {
-	verifAttackBMCWith(1)
+	// the number of initial workers is fixed per instance (0, 1, 2), so that
+	// anything sized by it — a channel buffer, say — has one size per model
+	verifAttackBMCWith(1, int64(verif_param("workers")))
 }
 
-func verifAttackBMC() { verifAttackBMCWith(0) }
+func verifAttackBMC() { verifAttackBMCWith(0, -1) }
 
-func verifAttackBMCWith(fixedMax uint64) {
+func verifAttackBMCWith(fixedMax uint64, fixedWorkers int64) {
 	N := verif_param("N")
 	W := uint64(2)
 	a, pacer, tr := verifAttackSetup(N, W)
 	if fixedMax > 0 {
 		verif_assume(a.maxWorkers == fixedMax)
+	}
+	if fixedWorkers >= 0 {
+		verif_assume(a.workers == uint64(fixedWorkers))
 	}
 	du := time.Duration(verif_nondet_i64("duration"))
 	tb := time.Duration(verif_time_bound())
